@@ -1256,6 +1256,7 @@ package websocket
 //@ assert at call:netDialWithTLSHandshake#1[C18.tlswrap]: arg1 == d.TLSClientConfig && arg2 == u && imp(d.NetDialContext != nil, arg0 == d.NetDialContext)
 //@ assert at return#1[C18.tlsonhttps]: imp(streq(u.Scheme, "https"), ite(d.NetDialTLSContext != nil, result == d.NetDialTLSContext, result == tlsd))
 //@ assert at return#1[C18.firsthop]: imp(!streq(u.Scheme, "https") && d.NetDialContext != nil, result == d.NetDialContext)
+//@ assert at return#1[C18.tlswrap]: imp(streq(u.Scheme, "https") && d.NetDialTLSContext == nil, isClosure(result, "netDialWithTLSHandshake$1") && closvar(result, "netDialWithTLSHandshake$1", u) == u && closvar(result, "netDialWithTLSHandshake$1", "tlsConfig", d.TLSClientConfig) == d.TLSClientConfig && imp(d.NetDialContext != nil, same(closvar(result, "netDialWithTLSHandshake$1", "netDial", d.NetDialContext), d.NetDialContext)))
 
 //@ func (*Dialer).netDialFn
 //@ tags C16 C18
@@ -1265,10 +1266,14 @@ package websocket
 //@ bind direct after call:netDialFromURL#2
 //@ bind dl after call:netDialWithDeadline#1
 //@ bind hasdl after call:Deadline#1
+//@ bind cdl,cok after call:Deadline#1
+//@ assert at call:netDialWithDeadline#1[C16.deadline]: same(arg1, cdl) && cok
 //@ assert at call:netDialFromURL#1[C18.firsthop]: arg1 == proxyURL && proxyURL != nil
 //@ assert at call:netDialFromURL#2[C18.firsthop]: arg1 == backendURL && proxyURL == nil
 //@ assert at call:netDialWithDeadline#1[C16.deadline]: arg0 == ite(proxyURL != nil, viaProxy, direct)
 //@ assert at call:proxyFromURL#1[C16.proxydeadline]: arg0 == proxyURL && arg1 == ite(extres("(context.Context).Deadline", 1, ctx), dl, viaProxy)
+//@ bind pfn,perr after call:proxyFromURL#1
+//@ assert at return#1[C18.viaproxy]: proxyURL != nil && fn == pfn && err == perr
 //@ assert at return#2[C16.deadline]: proxyURL == nil && fn == ite(extres("(context.Context).Deadline", 1, ctx), dl, direct)
 
 // ---------------------------------------------------------------------------
@@ -1455,3 +1460,33 @@ package websocket
 //@ tags C08
 //@ modifies c.handleClose
 //@ ensures[C08.sethandler] imp(h != nil, c.handleClose == h) && c.handleClose != nil
+
+// ---------------------------------------------------------------------------
+// proxy.go / client.go: which dial function is built for a proxy URL.  A
+// closure is identified by the function it closes over and by its first
+// binding (isClosure / closrecv).
+//@ func proxyFromURL
+//@ tags C18
+//@ results fn err
+//@ requires proxyURL != nil
+//@ assert at call:FromURL#1[C18.socks]: arg0 == proxyURL && typeIs(arg1, "netDialerFunc") && same(asType(arg1, "netDialerFunc"), forwardDial)
+//@ ensures[C18.httpproxy] imp(streq(proxyURL.Scheme, "http") || streq(proxyURL.Scheme, "https"), err == nil && isClosure(fn, "(*httpProxyDialer).DialContext$bound") && asPtr(closrecv(fn), "*httpProxyDialer") != nil && asPtr(closrecv(fn), "*httpProxyDialer").proxyURL == proxyURL && same(asPtr(closrecv(fn), "*httpProxyDialer").forwardDial, forwardDial))
+//@ ensures[C18.socks] imp(!(streq(proxyURL.Scheme, "http") || streq(proxyURL.Scheme, "https")), imp(err != nil, fn == nil))
+//@ ensures[C18.socks] imp(!(streq(proxyURL.Scheme, "http") || streq(proxyURL.Scheme, "https")) && err == nil, fn != nil && (isClosure(fn, "(golang.org/x/net/proxy.ContextDialer).DialContext$bound") || isClosure(fn, "proxyFromURL$1")))
+
+// the adapter for SOCKS dialers without DialContext: one Dial, same target
+//@ func proxyFromURL$1
+//@ tags C18
+//@ bind dc,derr after call:Dial#1
+//@ assert at call:Dial#1[C18.socks]: arg0 == dialer && same(arg2, addr)
+//@ assert at return#1[C18.socks]: r0 == dc && r1 == derr
+
+// the two wrappers return closures over exactly their arguments
+//@ func netDialWithDeadline
+//@ tags C16
+//@ ensures[C16.wrap] isClosure(result, "netDialWithDeadline$1") && same(closvar(result, "netDialWithDeadline$1", netDial), netDial) && same(closvar(result, "netDialWithDeadline$1", deadline), deadline)
+
+//@ func netDialWithTLSHandshake
+//@ tags C18
+//@ nilable tlsConfig
+//@ ensures[C18.tlswrap] isClosure(result, "netDialWithTLSHandshake$1") && same(closvar(result, "netDialWithTLSHandshake$1", netDial), netDial) && closvar(result, "netDialWithTLSHandshake$1", tlsConfig) == tlsConfig && closvar(result, "netDialWithTLSHandshake$1", u) == u
